@@ -334,6 +334,9 @@ def text_mutations(g, m):
                    for key in ('pair', 'embed', 'density') for e in (m.get(key) or []))
         out.append(('signature_unclosed', t.replace(sig, sig.replace(') =', ' ='))))
         out.append(('signature_empty_parameter', t.replace(sig, sig.replace('(r', '(r, '))))
+        out.append(('signature_trailing_text', t.replace(sig, sig.replace(') =', ') xyz ='))))          # fix 9a3d831
+        out.append(('signature_bad_parameter_name', t.replace(sig, sig.replace('(r', '(r, 2x'))))
+        out.append(('signature_bad_label', t.replace(sig, '9' + sig)))
         out.append(('duplicate_form_label', t.replace(sig, sig + '\n' + sig.replace('(r', '(r, zz'))))
         if used:
             out.append(('formula_syntax', t.replace(sig, sig + ' +* (')))
@@ -439,6 +442,23 @@ def correspond(ctx):
         if dec_k(kres[2 * j]) != got_p: dis.append({'case': {'kind': 'store_text', 'key': k}, 'what': 'pair key %r: model %r, _pair_species_func %r' % (k, dec_k(kres[2 * j]), got_p)})
         if dec_k(kres[2 * j + 1]) != got_f: dis.append({'case': {'kind': 'store_text', 'key': k}, 'what': 'A->B key %r: model %r, species_func %r' % (k, dec_k(kres[2 * j + 1]), got_f)})
     dist['species_keys'] = len(keys)
+    # signatures (model/ItemLabel.v: sig_key) against _parse_potential_form_signature on key texts as the parser sees them
+    sigs = ['f(r)', 'f(r,a)', 'myform(r,A,rho_1)', 'f(r,a)xyz', 'f(r,a))', 'f((r,a)', 'f(r,,a)', 'f()', 'f(r,a', '1f(r)', 'f.g(r)', 'f(r,a)(b)', 'f(a)', 'f(r,r)', 'f', '(r)', 'f(r,2x)', 'f_1(r,_a)', 'f(r, a )', 'F9(R)', 'f(r,a,)', ' f(r)', 'f(r) ', '\tf(r,a)\t', ' f (r)']
+    sigs += [''.join(g.choice('fr1_a(),. ') for _ in range(g.randint(0, 9))) for _ in range(150)]
+    sres = sc.eval_results('C16s', PRE_KEY + 'Definition enc_sig (o : option (list Z * list (list Z))) : list Z := match o with Some (l, ps) => 1 :: enc_s l ++ Z.of_nat (length ps) :: flat_map enc_s ps | None => [0] end.\n',
+                           ['(enc_sig (sig_key %s))' % zs_(k) for k in sigs], chunk=120)
+    def dec_sig(zs):
+        if zs[0] == 0: return None
+        i = 1; n = zs[i]; lab = ''.join(chr(x) for x in zs[i + 1:i + 1 + n]); i += 1 + n
+        m_ = zs[i]; i += 1; ps = []
+        for _ in range(m_):
+            n = zs[i]; ps.append(''.join(chr(x) for x in zs[i + 1:i + 1 + n])); i += 1 + n
+        return (lab, ps)
+    for k, zs in zip(sigs, sres):
+        try: o = kcp._parse_potential_form_signature(k); got = (o.label, list(o.parameter_names))
+        except ConfigurationException: got = None
+        if dec_sig(zs) != got: dis.append({'case': {'kind': 'store_text', 'key': k}, 'what': 'signature %r: model %r, _parse_potential_form_signature %r' % (k, dec_sig(zs), got)})
+    dist['signatures'] = len(sigs)
     return {'evaluations': len(cases) + istats['ini_files'], 'cases': cases, 'nontrivial': core.distinct_count([c for c in cases if c['expect'] == 'CfgErr']) + core.distinct_count([c for c in cases if c['expect'] == 'Ok']),
             'rule': 'well-formed models over all eleven targets (pair / EAM / Finnis-Sinclair / ADP; 1..3 species; custom and table forms; definitions to depth 2 with ranges, sum/product/pow/trans/spline, modifiers as spline ends) and one catalogue '
                     'malformation of each (%d operators: targets, sections, keys, key styles, table data, labels, parameter counts, modifier names and arities, every spline rule): validate vs Configuration().read, a sample through the potable CLI '
